@@ -202,6 +202,10 @@ func (d *segmentationDescriptor) parseDescriptor(data []byte) error {
 		b, _ := buf.ReadByte()
 		return b
 	}
+	if len(data) < 9 {
+		// identifier, event id and cancel indicator are always present
+		return gots.ErrInvalidSCTE35Length
+	}
 	if binary.BigEndian.Uint32(buf.Next(4)) != segDescID {
 		return gots.ErrSCTE35InvalidDescriptorID
 	}
